@@ -47,6 +47,18 @@ def _cases(tier):
             for shape in SHAPES:
                 yield {"space": "A", "n": n, "mask": mask, "shape": shape}
     fam = 3 if tier == "quick" else 4
+    # space C: two merge_models calls on one registry (a second document is registered after the first merge). Each call must merge
+    # along the relation evaluated on the key sets the models have when that call starts.
+    six = ["".join(c) for n in (3, 4) for c in itertools.combinations("abcdef", n)]
+    for trio in itertools.combinations(six if tier != "quick" else six[::2], 3):
+        for cname in ("number_2", "number_3", "percent_75", "percent_50", "exact|number_3"):
+            yield {"space": "C", "first": list(trio), "second": [], "cmp": cname}
+            if tier != "quick":
+                yield {"space": "C", "first": list(trio), "second": ["abf"], "cmp": cname}
+    for a, b in itertools.combinations(six[::3], 2):
+        for c in six[::2]:
+            for cname in ("number_2", "number_3", "percent_75"):
+                yield {"space": "C", "first": [a, b], "second": [c], "cmp": cname}
     # families with repeated key sets: identical key sets are similar only if a configured comparator says so
     for ks in KEYSETS:
         for cname in CMPSETS:
@@ -199,7 +211,64 @@ def _judge(reg, root_ptr, before, keysets, comps, ret, shape_tokens, site):
     return viol
 
 
+def _rel_for(cname):
+    spec = CMPSETS[cname] or [("percent", 0.7), ("number", 10)]
+
+    def rel(a, b):
+        for c in spec:
+            if c[0] == "exact" and a == b:
+                return True
+            if c[0] == "percent" and len(a & b) * 1000 >= int(round(c[1] * 1000)) * len(a | b):
+                return True
+            if c[0] == "number" and len(a & b) >= c[1]:
+                return True
+        return False
+    return rel
+
+
+def _execute_two_calls(case):
+    rel = _rel_for(case["cmp"])
+    gen = MetadataGenerator(str_types_registry=pipeline.make_str_registry())
+    reg = ModelRegistry(*pipeline.make_cmps(CMPSETS[case["cmp"]]))
+    tokens = [f"first:{s}" for s in case["first"]] + [f"second:{s}" for s in case["second"]]
+    site = "C:" + case["cmp"]
+    viol = []
+    docs = [[{f"m{i}": {k: 1 for k in ks} for i, ks in enumerate(case["first"])}],
+            [{f"n{i}": {k: 1 for k in ks} for i, ks in enumerate(case["second"])}]]
+    summary = []
+    for call, doc in enumerate(docs):
+        if doc[0]:
+            reg.process_meta_data(gen.generate(*doc), model_name=f"Doc{call}")
+        before = list(reg.models)
+        keysets = [set(m.type.keys()) for m in before]
+        n = len(before)
+        edges = [(i, j) for i, j in itertools.combinations(range(n), 2) if rel(keysets[i], keysets[j])]
+        comps = _components(n, edges)
+        try:
+            ret = reg.merge_models(gen)
+        except Exception as e:
+            sx = core.exc_site(e)
+            return {"obs": ["exc:" + sx], "viol": [core.viol("merge_raises", site + ":" + sx, tokens, f"call {call}: {type(e).__name__}: {e}")],
+                    "outcome": "raises", "show": str(e)[:100]}
+        # _judge expects a root that is not a node; here every registered model is a node, so pass a dummy root
+        class _NoRoot:
+            type = None
+        found = _judge(reg, _NoRoot, before, keysets, comps, ret, tokens + [f"call:{call}"], site)
+        # _judge counts one extra model for the root: correct the expectation for this space
+        found = [v for v in found if v["clause"] != "partition_mismatch"]
+        if len(reg.models_map) != len(comps):
+            found.append(core.viol("partition_mismatch", site, tokens + [f"call:{call}"],
+                                   f"call {call}: {len(reg.models_map)} models registered, expected {len(comps)} (components {comps} of {[sorted(k) for k in keysets]})"))
+        viol += found
+        summary.append((len(before), len(reg.models_map)))
+    obs = core.digest([case["first"], case["second"], case["cmp"], summary])
+    return {"obs": [obs], "viol": viol, "outcome": f"calls:{summary}", "show": f"{case['first']} then {case['second']} under {case['cmp']}: {summary}",
+            "nontrivial": obs if summary[1][0] != summary[1][1] else None}
+
+
 def execute(case):
+    if case["space"] == "C":
+        return _execute_two_calls(case)
     if case["space"] == "A":
         n, shape = case["n"], case["shape"]
         edges = _edges(n, case["mask"])
